@@ -58,7 +58,6 @@ def quick (G : Guards) : List ProgItem :=
   let P : List String := opt L.existsGuard ["exists"]
   let C : List (List Exc) := [L.caught]
   let CW : List (List Exc) := if W.allInTry then [W.caught] else []
-  [it "return" false ["if"] []] ++                                  -- SPSDK_CACHE_DISABLED: no cache at all
   opt L.existsGuard [it "exists" false [] []] ++
   readItems L.lockRead P C ++
   opt L.typeChecked [typecheck L.typeExc false P (if L.typeCheckInTry then C else [])] ++
@@ -69,31 +68,30 @@ def quick (G : Guards) : List ProgItem :=
   [it "set_fp" false [] []] ++                                       -- full load done; fingerprint into the new object
   [it "makedirs" false [] CW] ++
   opt W.lockWrite [it "acquire" false [] CW] ++
-  storeItems W [] CW ++
-  [it "return" false [] []]
+  storeItems W [] CW
 
 /-- `DatabaseData.__init__` -/
 def configLoader (L : LoaderGuards) : List ProgItem :=
-  let B : List String := ["if"]
+  let B : List String := []
   let P : List String := B ++ opt L.existsGuard ["exists"]
   let C : List (List Exc) := [L.caught]
   let H := P ++ ["handler"]
-  [it "clear_fp" false [] [], it "clear_loaded" false [] []] ++
+  [it "clear_loaded" false [] [], it "clear_fp" false [] []] ++
   opt L.existsGuard [it "exists" false B []] ++
   readItems L.lockRead P C ++
   opt L.typeChecked [typecheck L.typeExc false P (if L.typeCheckInTry then C else [])] ++
   opt L.fpChecked
     ([it "fpcompare" false P C] ++
+     [it "set_fp" false (P ++ ["match"]) C] ++
      opt L.staleClearsLoaded [it "clear_loaded" false (P ++ ["mismatch"]) C] ++
-     opt L.removeStale [it "remove" false (P ++ ["mismatch"]) C] ++
-     [it "set_fp" false (P ++ ["match"]) C]) ++
+     opt L.removeStale [it "remove" false (P ++ ["mismatch"]) C]) ++
   opt L.handlerClearsLoaded [it "clear_loaded" false H []] ++
   handlerRemoveItems L H ++
   [it "use_loaded" false [] [], it "use_loaded" false [] []]          -- cfg_cache and defaults come from the loaded object
 
 /-- `DatabaseData.make_cache` -/
 def configWriter (W : WriterGuards) : List ProgItem :=
-  let B : List String := ["if"]
+  let B : List String := []
   let C : List (List Exc) := if W.allInTry then [W.caught] else []
   let P : List String := B ++ opt W.mergeExistsGuard ["exists"]
   let k := W.lockWrite
